@@ -43,9 +43,9 @@ func (lossy) Runs(tier string) int64 {
 
 func (lossy) Meta() core.EngineMeta {
 	return core.EngineMeta{
-		Rule: "Reference-multiplexed streams (as C02; some with PES payloads made of PES-start-code patterns at packet strides) go through the PacketChannel. Even run indices enumerate EVERY single-packet duplication and EVERY single-packet deletion position of their stream (exhaustive per stream); odd indices apply a seeded multi-fault plan (loss bursts < 16 per PID, duplicates of first/middle/last packets, duplicates delayed behind other PIDs' packets, dup+loss). The fault-free run of the same stream is the baseline. evaluations = faulted executions; distinct = abstract fingerprint (fault kind, unit kind, position class first/middle/last/single, packets-per-unit class, cc-wrap, interleaved, outcome class); non-trivial = the fault hit a packet of a unit (always).",
-		Real: []string{"astits.Demuxer and everything below it"},
-		Stub: []string{"refts reference multiplexer", "PacketChannel (drop / duplicate)", "SimReader (fault-free)", "spec-level bookkeeping of which unit each packet belongs to"},
+		Rule:       "Reference-multiplexed streams (as C02; some with PES payloads made of PES-start-code patterns at packet strides) go through the PacketChannel. Even run indices enumerate EVERY single-packet duplication and EVERY single-packet deletion position of their stream (exhaustive per stream); odd indices apply a seeded multi-fault plan (loss bursts < 16 per PID, duplicates of first/middle/last packets, duplicates delayed behind other PIDs' packets, dup+loss). The fault-free run of the same stream is the baseline. evaluations = faulted executions; distinct = abstract fingerprint (fault kind, unit kind, position class first/middle/last/single, packets-per-unit class, cc-wrap, interleaved, outcome class); non-trivial = the fault hit a packet of a unit (always).",
+		Real:       []string{"astits.Demuxer and everything below it"},
+		Stub:       []string{"refts reference multiplexer", "PacketChannel (drop / duplicate)", "SimReader (fault-free)", "spec-level bookkeeping of which unit each packet belongs to"},
 		FaultKinds: []string{"dup", "drop", "dup-delayed", "drop-burst", "dup-first", "dup-last", "dup-single-packet-unit", "drop-pusi", "biased-payload"},
 		Assumptions: []string{
 			"a duplicate is a byte-identical copy following the original before any other packet of its PID",
